@@ -2,7 +2,10 @@ module gaeaverif/harness
 
 go 1.21
 
-require github.com/XiaoMi/Gaea v0.0.0
+require (
+	github.com/XiaoMi/Gaea v0.0.0
+	github.com/shopspring/decimal v1.3.1
+)
 
 require (
 	github.com/beorn7/perks v1.0.1 // indirect
@@ -44,7 +47,6 @@ require (
 	github.com/prometheus/procfs v0.6.0 // indirect
 	github.com/remyoudompheng/bigfft v0.0.0-20190321074620-2f0d2b0e0001 // indirect
 	github.com/shirou/gopsutil v2.20.9+incompatible // indirect
-	github.com/shopspring/decimal v1.3.1 // indirect
 	github.com/smartystreets/assertions v0.0.0-20180927180507-b2de0cb4f26d // indirect
 	github.com/smartystreets/goconvey v1.6.4 // indirect
 	github.com/stretchr/objx v0.5.0 // indirect
